@@ -16,7 +16,7 @@ fn probe_val(kind: ValKind, empty: bool, emitted: Option<u8>) -> Val {
         ValKind::Str => Val::Str(if empty { String::new() } else { "x".into() }),
         ValKind::Bytes => Val::Bytes(if empty { vec![] } else { vec![1] }),
         ValKind::Memo => Val::Memo(3),
-        ValKind::Post => Val::Post { prefix: vec![], emission: emitted.map(|b| vec![b]).unwrap_or_default() },
+        ValKind::Post => Val::Post { prefix: vec![], emission: emitted.map(|b| vec![b]).unwrap_or_default(), again: 0 },
     }
 }
 
